@@ -77,13 +77,25 @@ AUDIT = [
     for c in ("mul_small($power)", "add_small($value)")
 ] + [
     # -- top-64-bit extraction ---------------------------------------------------------------------------------------------
-    _e("minimal_lexical::bigint::u64_to_hi64_1 | assert:overflow:Shl | r0 << ls", R_HI, ["C04"]),
-    _e("minimal_lexical::bigint::u64_to_hi64_2 | assert:overflow:Shl | (r0 << ls)", R_HI, ["C04"]),
+    _e("minimal_lexical::bigint::u64_to_hi64_1 | assert:overflow:Shl | r0 << ls", R_HI, ["C04", "C12"]),
+    _e("minimal_lexical::bigint::u64_to_hi64_2 | assert:overflow:Shl | (r0 << ls)", R_HI, ["C04", "C12"]),
+    _e("minimal_lexical::bigint::scalar_mul | cast-value-preserving | z as Limb",
+       "low half of the widening idiom: z = x*y + carry fits the double-width type and its high half `(z >> LIMB_BITS) as Limb` is returned alongside", ["C12"],
+       "(2**LIMB_BITS - 1) * (2**LIMB_BITS - 1) + (2**LIMB_BITS - 1) < 2**(2*LIMB_BITS)"),
     _e("minimal_lexical::bigint::large_add_from | panic via core::option::Option::<T>::unwrap | x.get_mut(start + index).unwrap()",
        "after try_resize(y.len() + start) succeeded (or x was already long enough) x.len() >= y.len() + start > start + index", ["C04"]),
     # -- resize fill loop --------------------------------------------------------------------------------------------------
     _e("minimal_lexical::stackvec::{impl#0}::try_resize | vector-invariant at exit (&mut argument) | pub fn try_resize(&mut self, len: usize, value: bigint::Limb) -> Option<()> { if len > self.capacity() { None } else { // SAFETY: safe, sinc",
-       R_FILL, ["C04", "C08", "C13"]),
+       R_FILL, ["C04", "C08", "C12", "C13"]),
     _e("minimal_lexical::stackvec::{impl#6}::deref_mut | from_raw_parts-initialised | slice::from_raw_parts_mut(ptr, self.len())",
-       R_FILL + " (inside the loop the exposed slice still has the old length, which was initialised on entry)", ["C04", "C08", "C13"]),
+       R_FILL + " (inside the loop the exposed slice still has the old length, which was initialised on entry)", ["C04", "C08", "C12", "C13"]),
+] + [
+    # -- shipped front-end (7 copies): content-dependent arguments ---------------------------------------------------------
+    _e("roots::fe_%s::parse_exponent | panic via core::option::Option::<T>::unwrap | to_digit(*c).unwrap()" % k,
+       "parse_exponent is only called on the output of consume_digits, whose bytes all satisfy is_digit (a content property the engine does not track)", ["C19"])
+    for k in ("simple", "fuzz", "integ", "rng", "golang", "random", "unit")
+] + [
+    _e("roots::fe_%s::parse_float<F> | range-index-in-bounds | [%d..]" % (k, n),
+       "reached only after case_insensitive_starts_with matched a literal of that many bytes, so the slice is at least that long (content property)", ["C19"])
+    for k in ("fuzz", "integ") for n in (3, 8)
 ]
